@@ -592,12 +592,13 @@ def _is_select_expr(ctx: Ctx, f: FunctionInfo, p: Path, v: ast.expr | None, good
     return False
 
 
-def r17_conform(ctx: Ctx) -> None:
+def r17_conform(ctx: Ctx, rules: tuple[str, str, str] = ("R17.1", "R17.2", "R17.3")) -> None:
     run, m = ctx.run, ctx.m
-    run.rule("R17.1", "conform is a fixed point on Select: the arm matching a Select returns the relation itself and precedes the generic marker arm", expected_min=1)
-    run.rule("R17.2", "every SQL-engine factory returns a conformed (Select-producing) expression on every path", expected_min=10)
+    r1, r2, r3 = rules
+    run.rule(r1, "conform is a fixed point on Select: the arm matching a Select returns the relation itself and precedes the generic marker arm", expected_min=1)
+    run.rule(r2, "every SQL-engine factory returns a conformed (Select-producing) expression on every path", expected_min=10)
     run.rule(
-        "R17.3",
+        r3,
         "Select.apply_skip is the single construction site: applies sort, projection, deduplication, slice in that order via "
         "_finish_apply on the running target, passes the same objects to the constructor, sets is_compound from a Chain "
         "skip target; reapply_skip only forwards; Select.reapply re-conforms",
@@ -616,9 +617,9 @@ def r17_conform(ctx: Ctx) -> None:
             continue
         hit = True
         if p.outcome == "return" and src(p.value) == r:
-            run.ok("R17.1", "conform(Select)", {"path": p.describe()})
+            run.ok(r1, "conform(Select)", {"path": p.describe()})
         else:
-            run.fail("R17.1", "conform(Select)", f"conform of an already conformed relation returns `{src(p.value)[:60]}` instead of the relation itself", fi=conform, node=p.node or conform.node, details=describe(p))
+            run.fail(r1, "conform(Select)", f"conform of an already conformed relation returns `{src(p.value)[:60]}` instead of the relation itself", fi=conform, node=p.node or conform.node, details=describe(p))
     if not hit:
         raise AnalysisError("no feasible path of conform for a Select argument")
 
@@ -630,9 +631,9 @@ def r17_conform(ctx: Ctx) -> None:
                 continue
             inst = f"sql.Engine.{name}:path{i}"
             if _is_select_expr(ctx, f, p, p.value, good):
-                run.ok("R17.2", inst, {"returns": src(p.value)[:80]})
+                run.ok(r2, inst, {"returns": src(p.value)[:80]})
             else:
-                run.fail("R17.2", inst, f"sql Engine.{name} returns `{src(p.value)[:80]}`, which is not known to be a conformed Select", fi=f, node=p.node, details=describe(p))
+                run.fail(r2, inst, f"sql Engine.{name} returns `{src(p.value)[:80]}`, which is not known to be a conformed Select", fi=f, node=p.node, details=describe(p))
 
     # ---- R17.3
     ask = m.func(SQL_SELECT, "Select.apply_skip")
@@ -670,16 +671,16 @@ def r17_conform(ctx: Ctx) -> None:
                 if a is None or src(a) != want:
                     bad = bad or f"constructor argument {slot}={src(a)} is not the object that was applied"
         if bad:
-            run.fail("R17.3", inst, bad, fi=ask, node=p.node, details=describe(p))
+            run.fail(r3, inst, bad, fi=ask, node=p.node, details=describe(p))
         else:
-            run.ok("R17.3", inst, {"applied": seq})
+            run.ok(r3, inst, {"applied": seq})
     # each slot application is present on some path and is guarded by the slot's non-triviality
     for slot, guard_texts in (("sort", ("sort.terms",)), ("projection", ("projection",)), ("deduplication", ("deduplication",)), ("slice", ("slice.start", "slice.limit", "slice.stop"))):
         applied = [p for p in ctx.paths(ask) if any(call_attr(c) == "_finish_apply" and isinstance(c.func, ast.Attribute) and src(c.func.value) == slot for _, c in path_calls(p))]
         skipped = [p for p in ctx.paths(ask) if p not in applied]
         inst = f"apply_skip:slot:{slot}"
         if not applied:
-            run.fail("R17.3", inst, f"apply_skip never applies the `{slot}` slot: the marker would record an operation its target lacks", fi=ask)
+            run.fail(r3, inst, f"apply_skip never applies the `{slot}` slot: the marker would record an operation its target lacks", fi=ask)
             continue
         # on paths that skip it, the slot must have been tested trivial
         ok = True
@@ -688,9 +689,9 @@ def r17_conform(ctx: Ctx) -> None:
             if not any(any(g in a for a in f.args for g in guard_texts) for f in fs):
                 ok = False
         if ok:
-            run.ok("R17.3", inst)
+            run.ok(r3, inst)
         else:
-            run.fail("R17.3", inst, f"the `{slot}` slot is skipped on a path that never tested it for triviality", fi=ask)
+            run.fail(r3, inst, f"the `{slot}` slot is skipped on a path that never tested it for triviality", fi=ask)
     # is_compound
     comp_true = [n for n in ast.walk(ask.node) if isinstance(n, ast.Assign) and any(src(t) == comp_v for t in n.targets) and isinstance(n.value, ast.Constant) and n.value.value is True]
     ok = False
@@ -708,9 +709,9 @@ def r17_conform(ctx: Ctx) -> None:
                 if tests == sorted(["isinstance(skip_to, BinaryOperationRelation)", "isinstance(skip_to.operation, Chain)"]):
                     ok = default_false = True
     if ok and default_false:
-        run.ok("R17.3", "apply_skip:is_compound")
+        run.ok(r3, "apply_skip:is_compound")
     else:
-        run.fail("R17.3", "apply_skip:is_compound", "is_compound is not set exactly when skip_to is a BinaryOperationRelation holding a Chain", fi=ask)
+        run.fail(r3, "apply_skip:is_compound", "is_compound is not set exactly when skip_to is a BinaryOperationRelation holding a Chain", fi=ask)
     # reapply_skip forwards
     rsk = m.func(SQL_SELECT, "Select.reapply_skip")
     for i, p in enumerate(ctx.paths(rsk)):
@@ -721,9 +722,9 @@ def r17_conform(ctx: Ctx) -> None:
         if isinstance(v, ast.Name) and v.id == "self":
             fs = path_facts(p)
             if has_fact(fs, "TRUTH", ("kwargs",), False) and has_fact(fs, "IS", tuple(sorted(("skip_to", "self.skip_to"))), True):
-                run.ok("R17.3", inst)
+                run.ok(r3, inst)
             else:
-                run.fail("R17.3", inst, "reapply_skip returns self although a slot or the skip target may have changed", fi=rsk, node=p.node, details=describe(p))
+                run.fail(r3, inst, "reapply_skip returns self although a slot or the skip target may have changed", fi=rsk, node=p.node, details=describe(p))
         elif isinstance(v, ast.Call) and call_attr(v) == "apply_skip":
             bad = None
             if not v.args or src(v.args[0]) != "skip_to":
@@ -733,34 +734,42 @@ def r17_conform(ctx: Ctx) -> None:
                 if a is None or src(a) != f"kwargs.get('{slot}', self.{slot})":
                     bad = bad or f"slot `{slot}` is forwarded as `{src(a)}` instead of kwargs.get('{slot}', self.{slot})"
             if bad:
-                run.fail("R17.3", inst, f"reapply_skip: {bad}", fi=rsk, node=p.node)
+                run.fail(r3, inst, f"reapply_skip: {bad}", fi=rsk, node=p.node)
             else:
-                run.ok("R17.3", inst)
+                run.ok(r3, inst)
         else:
-            run.fail("R17.3", inst, f"reapply_skip returns `{src(v)[:60]}`", fi=rsk, node=p.node)
+            run.fail(r3, inst, f"reapply_skip returns `{src(v)[:60]}`", fi=rsk, node=p.node)
     # `after` is applied to the skip target
     ok_after = any(call_attr(c) == "_finish_apply" and isinstance(c.func, ast.Attribute) and src(c.func.value) == "after" and c.args and src(c.args[0]) == "skip_to" for c in iter_calls(rsk.node))
     if ok_after:
-        run.ok("R17.3", "reapply_skip:after")
+        run.ok(r3, "reapply_skip:after")
     else:
-        run.fail("R17.3", "reapply_skip:after", "`after` is not applied to the skip target", fi=rsk)
+        run.fail(r3, "reapply_skip:after", "`after` is not applied to the skip target", fi=rsk)
+    r_select_reapply(ctx, r3, declare=False)
+
+
+def r_select_reapply(ctx: Ctx, rule: str, declare: bool = True) -> None:
+    run, m = ctx.run, ctx.m
+    if declare:
+        run.rule(rule, "Select.reapply hands back the Select itself only for the identical (`is`) target and otherwise re-conforms the new target; it refuses payloads", expected_min=2)
+    r3 = rule
     rea = m.func(SQL_SELECT, "Select.reapply")
     for i, p in enumerate(ctx.paths(rea)):
         inst = f"Select.reapply:path{i}"
         if p.outcome == "raise":
-            run.ok("R17.3", inst)
+            run.ok(r3, inst)
             continue
         v = p.value
         val = resolve_name(p, v.id) if isinstance(v, ast.Name) and v.id != "self" else v
         if isinstance(v, ast.Name) and v.id == "self":
             if has_fact(path_facts(p), "IS", tuple(sorted(("target", "self.target"))), True):
-                run.ok("R17.3", inst)
+                run.ok(r3, inst)
             else:
-                run.fail("R17.3", inst, "Select.reapply returns self for a different target", fi=rea, node=p.node)
+                run.fail(r3, inst, "Select.reapply returns self for a different target", fi=rea, node=p.node)
         elif isinstance(val, ast.Call) and call_attr(val) == "conform":
-            run.ok("R17.3", inst)
+            run.ok(r3, inst)
         else:
-            run.fail("R17.3", inst, f"Select.reapply returns `{src(v)}`, which is neither self nor a re-conformed target", fi=rea, node=p.node)
+            run.fail(r3, inst, f"Select.reapply returns `{src(v)}`, which is neither self nor a re-conformed target", fi=rea, node=p.node)
 
 
 # ------------------------------------------------------------------ R14.5
@@ -1073,17 +1082,63 @@ def r14_9_engine_plumbing(ctx: Ctx, rule: str = "R14.9") -> None:
                 run.ok(rule, inst)
             else:
                 run.fail(rule, inst, f"{cname}.reapply returns `{src(v)}` instead of self.operation.apply({', '.join(ops)})", fi=f, node=p.node)
-    mr = m.func(MARKER, "MarkerRelation.reapply")
-    for i, p in enumerate(ctx.paths(mr)):
-        v = p.value
-        facts = path_facts(p)
-        inst = f"MarkerRelation.reapply:path{i}"
-        if src(v) == "self":
-            if has_fact(facts, "IS", ("self.target", "target"), True) and has_fact(facts, "IS", ("payload", "self.payload"), True):
+    r_marker_reapply(ctx, rule, declare=False)
+
+
+def r_marker_reapply(ctx: Ctx, rule: str, declare: bool = True) -> None:
+    """reapply() of every marker that can own a payload returns the node itself only for the identical target and
+    payload, and otherwise a copy carrying exactly the given target and payload (no stale payload, no re-simplification)."""
+    run, m = ctx.run, ctx.m
+    if declare:
+        run.rule(
+            rule,
+            "reapply() of payload-owning markers (MarkerRelation and any override in Transfer/Materialization/extension "
+            "markers that accept payloads) returns self only for the identical target and payload, otherwise a copy made "
+            "with exactly the given target and payload",
+            expected_min=2,
+        )
+    base = ctx.cls(MARKER, "MarkerRelation")
+    todo = [(base, m.func(MARKER, "MarkerRelation.reapply"))]
+    for c in m.subclasses(base, strict=True):
+        f = c.methods.get("reapply")
+        if f is None:
+            continue
+        # markers that refuse payloads altogether (Select) are governed by their own rule
+        refuses = any(
+            p.outcome == "raise" and any(fc.kind == "IS" and not fc.polarity and "None" in fc.args and any("payload" in a for a in fc.args) for fc in path_facts(p))
+            for p in ctx.paths(f)
+        )
+        if not refuses:
+            todo.append((c, f))
+    for c, mr in todo:
+        ps = [q for q in mr.params if q != "self"]
+        if len(ps) < 2:
+            run.fail(rule, f"{c.name}.reapply:signature", f"{c.name}.reapply does not take (target, payload)", fi=mr)
+            continue
+        tp, pp = ps[0], ps[1]
+        for i, p in enumerate(ctx.paths(mr)):
+            v = p.value
+            facts = path_facts(p)
+            inst = f"{c.name}.reapply:path{i}"
+            if p.outcome == "raise":
+                run.ok(rule, inst)
+                continue
+            if src(v) == "self":
+                if has_fact(facts, "IS", tuple(sorted(("self.target", tp))), True) and has_fact(facts, "IS", tuple(sorted((pp, "self.payload"))), True):
+                    run.ok(rule, inst)
+                else:
+                    run.fail(rule, inst, f"{c.name}.reapply returns self although the target or the payload differs (a payload handed to reapply would be lost, or a stale one kept)", fi=mr, node=p.node, details=describe(p))
+            elif isinstance(v, ast.Call) and (dotted(v.func) or "").endswith("replace") and v.args and src(v.args[0]) == "self" and src(kw(v, "target")) == tp and src(kw(v, "payload")) == pp:
+                run.ok(rule, inst)
+            elif isinstance(v, ast.Call) and src(v.func) == "super().reapply" and [src(a) for a in v.args] + [f"{k.arg}={src(k.value)}" for k in v.keywords] in ([tp, pp], [tp, f"payload={pp}"], [f"target={tp}", f"payload={pp}"]):
                 run.ok(rule, inst)
             else:
-                run.fail(rule, inst, "MarkerRelation.reapply returns self although the target or the payload differs (a payload handed to reapply would be lost)", fi=mr, node=p.node, details=describe(p))
-        elif isinstance(v, ast.Call) and (dotted(v.func) or "").endswith("replace") and src(v.args[0]) == "self" and src(kw(v, "target")) == "target" and src(kw(v, "payload")) == "payload":
-            run.ok(rule, inst)
-        else:
-            run.fail(rule, inst, f"MarkerRelation.reapply returns `{src(v)}`", fi=mr, node=p.node)
+                run.fail(
+                    rule,
+                    inst,
+                    f"{c.name}.reapply returns `{src(v)[:70]}`: a payload-owning marker must be re-applied as a plain copy with exactly the given "
+                    "target and payload (the Processor hands it the processed target and the freshly computed payload; re-running "
+                    "simplification or keeping the old payload loses or misplaces it)",
+                    fi=mr,
+                    node=p.node,
+                )
